@@ -140,6 +140,23 @@ func world(run *vh.Run, label string, wi, nBlocks int) {
 			}
 		}
 	}
+	// vesting accounts whose schedule has not STARTED yet (a cliff: start and end both in the future of the whole history, or
+	// start in its middle): protected until the end time like any other
+	for _, kind := range []string{"continuous", "periodic"} {
+		for _, startAt := range []int{60, 100000} {
+			for _, funded := range []bool{false, true} {
+				a := vh.NewAcct(r)
+				start := genesis.Add(time.Duration(startAt) * step).Unix()
+				ga := vh.GenAccount{Addr: a.Addr, Kind: kind, VestStart: start, VestEnd: start + int64(40*step/time.Second),
+					OrigVesting: sdk.NewCoins(sdk.NewCoin(vh.Denom, sdkmath.NewIntFromBigInt(vh.Ether(10))))}
+				if funded {
+					ga.Coins = sdk.NewCoins(sdk.NewCoin(vh.Denom, sdkmath.NewIntFromBigInt(vh.Ether(12))))
+				}
+				accts = append(accts, ga)
+				specials = append(specials, special{addr: a.Addr, desc: fmt.Sprintf("vesting:%s-not-started:funded=%v", kind, funded), key: a})
+			}
+		}
+	}
 	// special accounts sitting at the addresses a known key will create contracts at (CREATE(creator, 0..7)): a creation
 	// transaction (or CREATE) whose target address is a protected account must fail as a whole and leave it alone
 	creator := vh.NewAcct(r)
